@@ -43,12 +43,11 @@ theorem inplace_clone_succeeds (H : Bytes → Bytes) (hH : ∀ x, (H x).length =
     (hinit : tryInit H features (honestReadAt archive) = .ok a) (hd : Describes H a src cks)
     (hs : Stored H decomp a archive)
     (hpin : ∀ pin, opts.headerPin = some pin → pin = a.headerChecksum)
-    (hdev : opts.blockDev = true → src.length ≤ prior.length)
-    (hbv : opts.blockDev = true → opts.verifyOutput = false) :
+    (hdev : opts.blockDev = true → src.length ≤ prior.length) :
     let r := Clone.run H decomp features (honestReadAt archive) (honestReadChunks archive) opts prior seeds
     (r.result = .ok ∧ setLen r.output src.length = src ∧ (opts.blockDev = false → r.output = src)) ∨
       Collision H a.hashLength cks :=
-  Proofs.clone_complete_nojunk H hH decomp features archive opts prior seeds a src cks hinit hd hs hpin hdev hbv
+  Proofs.clone_complete_nojunk H hH decomp features archive opts prior seeds a src cks hinit hd hs hpin hdev
 
 variable {κ : Type} [DecidableEq κ]
 
